@@ -12,12 +12,31 @@ COMMON_ASSUMPTIONS = [
 ]
 
 PROPS = {
+    "C06": dict(
+        suites=[("pipe", 6000, 120000)],
+        trusted_base=["the hash of a single value (CValueEnclosure.Hash = xxhash of dtype byte + text) is a parameter of the model (any function); the Oracle instantiates it with one bit per distinct value of the case, so XOR combinations collide exactly when the values occurring an odd number of times agree",
+                      "the correspondence harness builds IQRs without RRCs (knownValues), as the package's own tests do; the synthetic upstream is a processor.Streamer replaying the table under the given partition"],
+        decided_by_proof="for EVERY table and EVERY partition into batches (empty batches included) the DataProcessor.Fetch loop over the real state handling of: head <n> (plain limit, early EOF), tail <n> (bottleneck, reversed), the scroll-from processor, rename <old> as <new> (one pair, phrase mode), fields +/- <literal names>, fillnull value=<v> <field list> (streaming), fillnull value=<v> without field list (two passes, also with different partitions in the two passes), dedup <limit> <f1…fk> with consecutive / keepempty / keepevents in any combination (the seen-map across batches = dedup of the whole stream under the key the code forms) yields the documented meaning on the whole ordered input; sequential composition of chunk-invariant stages and every chain by induction; the two-pass fillnull on top of a rewound and re-read head / tail / dedup / row-wise command (two_pass_over + rereadable_*); counterexample theorem for two passes: `tail | rename | fillnull` applies the rename twice to tail's retained result (in-place mutation) and loses the column; dedup key: XOR of per-field hashes is NOT injective for ANY hash ((1,2) vs (2,1); (1,1) vs (2,2)) — counterexample theorems, partial theorems for single-field dedup and under the explicit guards colsOK (every non-empty batch carries the dedup columns) and keyFaithful; counterexample theorem: a column missing in one batch makes dedup depend on the partition",
+        partial="NOT modelled / not decided by proof: where, eval, rex, regex, sort, top/rare, bin, streamstats, makemv/mvexpand, stats, timechart, transaction, tojson, inputlookup, gentimes; head with a boolean expression (keeplast/null); dedup sortby; rename with wildcards / several pairs; fields with wildcards; merging of SEVERAL upstream streams (getStreamInput with >1 stream, MergeIQRs, parallel chains) and the searcher; IQRs with RRCs (segment-backed columns, renamed/deleted column shadowing); chains longer than two stages under a two-pass command are tied by the correspondence run only (the Oracle's Chain.read incl. the in-place aliasing of tail's retained result); the general chain theorem covers single-pass feeding",
+        assumptions=["IQR.Append / Discard / DiscardAfter / DiscardRows / ReverseRecords / RenameColumn / AddColumnsToDelete act on a column-major table as modelled (row lists); tied by the correspondence run",
+                     "the consumer fetches until EOF and appends (GetFullResult); a CachedStream answers (nil, EOF) after its first EOF"],
+    ),
     "C08": dict(
-        suites=[("gorilla", 3000, 60000), ("gorilladec", 1500, 30000)],
-        trusted_base=["xxhash (TSID) treated as an arbitrary function; statements are about the pre-image string"],
+        suites=[("gorilla", 3000, 60000), ("gorilladec", 1500, 30000), ("e2e_metrics", 1000, 15000)],
+        trusted_base=["xxhash (TSID) treated as an arbitrary function; statements are about the pre-image string",
+                      "e2e_metrics: lean/SigModel/Spec/Metrics.lean (the specification a selector/aggregation answer is compared with), lib/e2ecmp.py compare_metrics (comparison + declared latitude), harness overlay hooks VerifRotateBlocks/VerifFlushTagsTrees (bodies of the repo's timer loops)"],
         decided_by_proof="Gorilla codec round trip for every header/series (bit IO, dod buckets, XOR windows, finish marker, clone prefix)",
-        partial="TSO/TSG file framing, tags tree and restart path: correspondence / end-to-end only",
+        partial="Everything outside the codec kernel is NOT decided by proof. TSID/tags tree, TSO/TSG block files, block and segment rotation, series reader, tags search and query path are covered only by the end-to-end differential e2e_metrics (sampled inputs): real engine in a fresh process per case (OTSDB ingest → optional block/segment rotations → PromQL selector through ConvertPromQLToMetricsQuery+ExecuteMetricsQuery, before and after one more forced rotation) against the Lean SPECIFICATION Spec/Metrics.lean (series = name + label set + points; same timestamp, bit-identical value, same labels, no merging). Timestamps/bits are compared only for queries whose points sit on bucket starts of the engine's downsample interval (latitude `unaligned`). Restart is covered only as forced rotation + metadata reload (graceful stop/start); WAL recovery after a crash, prometheus remote-write and OTLP ingest are not exercised. Recorded deviations: known_findings.txt sig=e2em/in-class/*",
         assumptions=["ingest hands the compressor header = first timestamp and non-zero uint32 timestamps"],
+    ),
+    "C09": dict(
+        suites=[("promql", 4000, 60000)],
+        trusted_base=["float64 arithmetic is not modelled: the correspondence run uses integer samples (|v| < 2^40, sums < 2^53) so sum/min/max/count are exact in float64; the avg quotient is compared after the Oracle's correctly rounded float64 division (f64div), which no theorem is about",
+                      "overlay hook VerifGetAggSeriesId (pkg/segment/results/mresults) only exposes getAggSeriesId; series ids are produced by the real tsidtracker.BulkAdd/AddTSID in tag-filter order chosen by the generator (any order), goroutine interleaving inside DownsampleResults/AggregateResults is exercised with parallelism 1..4 and treated as order-insensitive"],
+        decided_by_proof="results layer of metric queries, for every metric name, label set, field list, by/without, step and sample list: the group key cut out of the series-id string equals the PromQL group key rendered (and same key <=> same PromQL group) under the guard LabelSafe (no , : { in names/values/fields, no grouping field a proper suffix of a label name; counterexample theorems without it, exact characterisation 'value of the first label whose name ENDS WITH the field'); per group and bucket the reported value is sum of sums / min of mins / max of maxes / number of member series / pooled mean over the PromQL members (agg_correct, no further keys: agg_complete) under LabelSafe and CountOK (counterexample for count without ()); min <= avg <= max for all inputs; avg = sum/count when every series has one sample per bucket (counterexample otherwise: the downsampler folds a bucket with the query's own function); grouping by all labels = one group per label set; (ts/step)*step is the floor to the step grid",
+        partial="selector/matcher evaluation on the tags tree (=, !=, =~, !~ and the key=* filters of SelectAllSeries), the PromQL parser, the order in which tag filters are concatenated into the id, nested aggregations through ApplyAggregationToResults (agg2 operations: correspondence with the model's results2 only, no theorem; first stage restricted to sum/min/max/count so that the intermediate values stay integers), range/math/time/label functions, topk/bottomk/stddev/stdvar/quantile/group, histogram_quantile, vector arithmetic and label matching between vectors, open-vs-rotated and block/segment splits: NOT covered by this slice (some observed end-to-end by a one-off probe only, see known_findings); float64 rounding: not modelled",
+        assumptions=["label values are non-empty (PromQL treats an empty value as an absent label; the remote-write path stores what it is given) — the property check does not judge inputs with empty values",
+                     "one series per label set within a query for count() without grouping fields (TSIDs are hashes of the full label set); duplicate ids are exercised for model correspondence only"],
     ),
     "C10": dict(
         suites=[("wal", 2500, 40000)],
@@ -67,7 +86,7 @@ PROPS = {
     "C16": dict(
         suites=[("time", 8000, 150000)],
         facts={
-            "ExtractTimeStamp.literals": ["0", "0", "0", "1000", "0"],
+            "ExtractTimeStamp.literals": ["0", "0", "0", "0", "1000", "1000000", "1000", "0"],
             "ConvertTimestampToMillis.literals": ["10", "64", "1000000", "1000", "1000000", "0"],
             "ExtractOTSDBPayload.literals": ["0", "0", "1000", "1000", "10", "64", "1000", "1", "0", "0", "0", "0", "0"],
             "ExtractOTLPPayload.literals": ["0", "0", "1000000000", "1000", "1000000000", "1000", "1", "0", "0", "0", "0", "0"],
@@ -82,7 +101,7 @@ PROPS = {
         assumptions=["GOARCH=amd64 for the float→integer conversions of out-of-range values"],
     ),
     "C17": dict(
-        suites=[("qtable", 4000, 60000)],
+        suites=[("qtable", 4000, 60000), ("parsers", 2500, 60000)],
         facts={"const.MAX_WAITING_QUERIES": "500"},
         decided_by_proof="running/waiting query tables over all operation sequences: waiting-queue bound, admission bound through pull, no qid both waiting-object and running-object twice, cancel of a running or waiting query takes effect, delete frees the entry, sends under table locks never block for fresh objects",
         partial="parser totality/termination/determinism for all byte strings (PEG-generated parsers are not modelled), goroutine leaks, timeout goroutine timing, blocking of CancelQuery on a full StateChan with a stalled consumer: NOT decided by proof",
@@ -98,10 +117,18 @@ PROPS = {
                      "one evaluation at a time per alert (the cron job of an alert does not overlap with itself)"],
     ),
     "C01": dict(
-        disabled="kernel theorems (TLV/dictionary/seek codecs) under construction in this round; the end-to-end suite e2e_c01 already runs",
-        suites=[("e2e_c01", 120, 3000)],
-        decided_by_proof="(kernel theorems for the TLV/dictionary/seek codecs are being added; see Props/C01.lean)",
-        partial="end-to-end round trip (flatten, type consolidation, block/segment layout, zstd, file offsets) is decided by the differential against the layout-free specification, not by proof",
+        suites=[("e2e_c01", 120, 3000), ("tlv", 6000, 120000)],
+        facts={"const.VALTYPE_ENC_BOOL": "1", "const.VALTYPE_ENC_SMALL_STRING": "2", "const.VALTYPE_ENC_UINT8": "3", "const.VALTYPE_ENC_UINT16": "4",
+               "const.VALTYPE_ENC_UINT32": "5", "const.VALTYPE_ENC_UINT64": "6", "const.VALTYPE_ENC_INT8": "7", "const.VALTYPE_ENC_INT16": "8",
+               "const.VALTYPE_ENC_INT32": "9", "const.VALTYPE_ENC_INT64": "16", "const.VALTYPE_ENC_FLOAT64": "17", "const.VALTYPE_ENC_BACKFILL": "19",
+               "const.VALTYPE_DICT_ARRAY": "20", "const.VALTYPE_RAW_JSON": "21", "const.ZSTD_COMLUNAR_BLOCK": "0", "const.ZSTD_DICTIONARY_BLOCK": "1",
+               "const.TIMESTAMP_TOPDIFF_VARENC": "2", "const.TS_Type8": "1", "const.TS_Type16": "2", "const.TS_Type32": "3", "const.TS_Type64": "4",
+               "const.MAX_RECORD_SIZE": "63000", "const.MAX_RECS_PER_WIP": "65534", "const.wipCardLimit": "501"},
+        decided_by_proof="the on-disk value codecs the round trip rests on, for every input: one TLV record (decode∘encode = id for strings < 65536 bytes and every numeric kind; counterexample theorems for the uint16 length wrap at 65536 and for GetCvalFromRec at 65533; guard implied by MAX_RECORD_SIZE), a column block under ANY sequence of ReadRecord calls (forward scan, restart on backward seek), the consistent-length shortcut (sound exactly when the writer reports a consistent size; counterexample for a stale hint), the filling of a column with absent/null/late values composed with the reader (column_roundtrip), PackDictEnc/ReadDictEnc/deGetRec, the timestamp block incl. the block-summary low/high fold",
+        partial="end-to-end round trip (JSON flattening, consolidateColumnTypes, block/segment layout, zstd, checksummed file chunks, file offsets, record-to-event assembly across columns) is decided by the differential suite e2e_c01 against the layout-free specification, not by proof; RAW_JSON / DICT_ARRAY records (trace ingest) are not modelled; the records of the narrow numeric kinds (int8..int32, uint8..uint32) have no writer in /repo and are built by the harness",
+        trusted_base=["zstd and the checksummed chunk file are exercised by the correspondence run (real writeWip / loadBlockUsingBuffer) but are not part of the model; uint32 offsets are modelled as naturals (blocks are far below 4 GiB); reader buffers are clipped to cap = len by an overlay hook so that reads past the end of a malformed block are deterministic panics instead of stale pool bytes"],
+        assumptions=["one column at a time: cross-column alignment (duplicate JSON keys, columnsInBlock bookkeeping across blocks) is covered by e2e_c01 only",
+                     "a zero timestamp never reaches the writer (GetNewPLE substitutes the current time); ts_zero_counterexample shows what would happen"],
     ),
     "C02": dict(
         suites=[("e2e_c02", 150, 4000)],
@@ -119,27 +146,65 @@ PROPS = {
         partial="count/sum/min/max/avg by group: end-to-end differential against the specification; dc and percentiles (HLL / t-digest sketches) are not modelled",
     ),
     "C05": dict(
-        disabled="kernel theorems (block scheduler, sort comparator) under construction in this round; the end-to-end suite e2e_c05 already runs",
-        suites=[("e2e_c05", 150, 4000)],
-        decided_by_proof="(scheduler/comparator kernel theorems are being added; see Props/C05.lean)",
-        partial="newest-first order, limits and paging: end-to-end differential against the specification",
-    ),
-    "C19": dict(
-        suites=[("path", 4000, 60000)],
-        trusted_base=["lexical model: symbolic links inside the data directory are outside the model (the harness sandbox contains none)",
-                      "route patterns are read from pkg/server/{query,ingest}/server.go by a regular expression (fallback: the patterns of the reference tree, counted in the evidence as route:fallback) and fed to the real fasthttp/router"],
-        decided_by_proof="filepath.Clean for every string (idempotent, normal form without '.', '' and with '..' only as the leading block of a relative path); filepath.Join against an absolute base for every name (inside the base iff the name's segment walk never climbs above its start); per path builder, for every client value passing the validation AS CODED, the built path is inside the data dir: holds for lookup get/delete, index mapping file, dashboard details, scroll results (router parameter or server-side id); for lookup upload, inputlookup, alias file, GetBaseSegDir, GetBaseVTableDir, GetSuffixFile and the tags-tree file the full statement is refuted by a counterexample theorem and proved under the guard 'no path separator in the value' (known findings)",
-        partial="completeness of the builder list is NOT proved (found by reading and grep for filepath.Join/os.Open/os.Create/os.Remove/os.WriteFile reachable from request values; a listing aid); dashboard update by body id (guarded by membership in the server-side folder structure), default dashboards (defaultDBs/ relative to the working directory), the SPL parser producing the inputlookup file name, index deletion following an escaped index directory, symlinks and OS path resolution beyond the sandboxed real operations: correspondence/reading only",
-        assumptions=["the data path is absolute and made of ordinary segments, the host id is one ordinary segment", "fasthttp/router hands a named parameter to the handler as one raw, non-empty path segment without '/' (exercised with the real router in every run)"],
+        suites=[("e2e_c05", 150, 4000), ("c05sched", 3000, 60000), ("c05cmp", 3000, 60000)],
+        # the literal 0.0001 of dtypeutils.AlmostEquals as go2lean renders it (200-bit binary expansion of the decimal)
+        facts={"AlmostEquals.literals": ["(1316403645856964833723975346045880403986188692506863890678887 / 13164036458569648337239753460458804039861886925068638906788872192 : Rat)"]},
+        trusted_base=["float64 rounding is a parameter of the comparator model (rnd with rnd 0 = 0 < rnd 0.0001); the Oracle instantiates it with a Lean round-to-nearest-even that the correspondence run validates against Go arithmetic; strconv.ParseFloat and fmt.Sprintf(\"%f\") results travel on the op line",
+                      "harness/cmd/overlaygen/c05.go copies Searcher.Fetch / fetchRRCs / initializeQSRs textually from the working tree and redirects only getBlocks' metadata look-ups and readSortedRRCs' file reads to synthetic blocks"],
+        decided_by_proof="block scheduler of the searcher (sortBlocks, getNextBlocks, getValidRRCs, cut-off handling over segment requests, unsentRRCs bookkeeping): for every well-formed set of overlapping segments/blocks, every maxBlocks and every number of Fetch calls the released stream is sorted (both modes); at EOF it is a permutation of all matches; newest-first always reaches EOF within 2(#segments+#blocks)+4 calls; first n released = n newest. sort comparator (compareValues/less, all ops, asc/desc, multi-key): strict weak order on every record set whose numeric values are finite and pairwise equal or at least the tolerance apart (counterexample theorems for values closer than 1e-4 and for NaN). pages partition the result; scroll and head are chunk-invariant",
+        partial="the OLDEST-first mode (recentLast, selected by no query path) can leave records in unsentRRCs for ever: counterexample theorem, known finding. sort-index sub-search (fetchColumnSortedRRCs), MergeIQRs/GetTopN/IQR.Sort plumbing, anyOrder mode, head with a condition: correspondence / end-to-end only. newest-first order, limits and paging of whole queries: end-to-end differential against the specification (e2e_c05)",
+        assumptions=["segment requests are ordered by sort.Slice in initializeQSRs; the model uses a stable sort, which coincides with sort.Slice below 13 elements (generators stay below); the order among requests with equal keys affects batch boundaries only, not the theorems"],
     ),
     "C13": dict(
         suites=[("tenant", 4000, 60000)],
-        trusted_base=["Go regexp (RE2) is modelled for the fragment that arises from index expressions over the alphabet letters, digits and - _ . * + ? ( ) [ ] | ^ $ \\ , : space (literals, ., * + ? with lazy marker and the nested-repetition error, |, groups, ^ $ as begin/end of text, character classes with ranges and negation, backslash + non-alphanumeric); outside the fragment ({ }, (?, [:, backslash + letter/digit, non-ASCII): not modelled, the generator stays inside, both sides answer out-of-fragment",
+        trusted_base=["Go regexp (RE2) is modelled for a fragment (literals, ., * + ? with lazy marker and the nested-repetition error, |, groups, ^ $ as begin/end of text, character classes, backslash + non-alphanumeric) that contains everything the quoted source of a wildcard element can hold; names and expressions are restricted to the alphabet letters, digits and - _ . * + ? ( ) [ ] | ^ $ \\ { } , : space (other characters: both sides answer out-of-fragment, the generator stays inside)",
                       "overlay hooks VerifResetTables (pkg/virtualtable), VerifResetUnrotated/VerifAddUnrotated (pkg/segment/writer) only reset / fill package state between cases; the harness creates the per-org alias directories that the open-source code never creates"],
-        decided_by_proof="index-expression expansion for every table/alias state, organisation and expression: a returned name is a table or alias target of the requesting organisation or text of the expression (verbatim element / documented fallback, characterised exactly); glob soundness of the expansion under the guard that the literal parts of wildcard elements contain no regex metacharacter (counterexample theorem without the guard: logs.2* selects logsX2024), key lemma: the code's unanchored regexp test equals the glob match under the guard; rotated and unrotated segment selection admits a segment iff table in names and org = requesting org and time overlap; DeleteVirtualTable removes exactly (org, index) from the table list and leaves other organisations' expansions unchanged; exact effect of metadata.DeleteVirtualTable on the rotated-segment view (counterexample theorem: another organisation's index of the same name disappears; exact under the guard that no other organisation holds that name)",
-        partial="end-to-end create/ingest/alias/delete/query sequences over several organisations (records carrying org/index markers through ingest, flush, rotation and all query forms), stream-id keying of open segment stores (CreateStreamId), DeleteSegmentsForIndex / DeleteVirtualTableSegStore (segmeta file, segment directories — by reading they too are keyed by the index NAME only, not replayed here), the stale in-memory table map after DeleteVirtualTable (a re-created index is not written to the table file until the next refresh), column listing and metrics queries, the FilteroutUnauthorizedIndexes hook: NOT covered by this slice; regular-expression syntax outside the modelled fragment: not modelled",
-        assumptions=["table and alias names contain no newline (the table list is a line-oriented file) and segment keys are unique",
+        decided_by_proof="index-expression expansion for every table/alias state, organisation and expression: a returned name is a table or alias target of the requesting organisation or text of the expression (verbatim element / documented fallback, characterised exactly), and is named by the expression under glob semantics (* = any string, every other character literal; key lemma: the code's quoted, unanchored regexp test compiles for every element and equals the glob match); rotated and unrotated segment selection admits a segment iff table in names and org = requesting org and time overlap; DeleteVirtualTable removes exactly (org, index) from the table list and leaves other organisations' expansions unchanged; metadata.DeleteVirtualTable removes exactly the segments of (org, index) from the rotated-segment view (same-named indexes of other organisations and prefix-related names untouched). Both former defects are kept as ...Old definitions with counterexample theorems",
+        partial="end-to-end create/ingest/alias/delete/query sequences over several organisations (records carrying org/index markers through ingest, flush, rotation and all query forms), stream-id keying of open segment stores (CreateStreamId), DeleteSegmentsForIndex / DeleteVirtualTableSegStore (segmeta file, segment directories — by reading they are keyed by the index NAME only, not replayed here), the stale in-memory table map after DeleteVirtualTable (a re-created index is not written to the table file until the next refresh), column listing and metrics queries, the FilteroutUnauthorizedIndexes hook: NOT covered by this slice",
+        assumptions=["table and alias names contain no newline (the table list is a line-oriented file), segment keys are unique, a deleted index has a non-empty name (deleteSegmentKeyWithLock uses the empty table name as its not-found marker)",
                      "aliases of organisations other than 0 exist only where the deployment creates aliases/<org>/ (the open-source code does not)"],
+    ),
+    "C11": dict(
+        # conc: deterministic replay of model schedules (and of the two read-path windows) on the real code, one
+        # engine process per line; concstress: EXPLORATION (concurrent stress run, GOMAXPROCS 1/4/16; thorough
+        # tier also a -race build of the harness)
+        suites=[("conc", 300, 6000), ("concstress", 3, 12)],
+        facts={
+            # order of the rotation steps (checkAndRotateColFiles → CleanupUnrotatedSegment) = Cfg.real.rotOrder
+            "C11.rotation.order": ["addSegmeta", "AddSegMetaToMetadata", "CleanupUnrotatedSegment"],
+            "C11.cleanup.order": ["removeSegKeyFromUnrotatedInfo", "resetSegStore"],
+            # a flush registers its block in the unrotated map before the rotation check of the same lock hold
+            "C11.flush.order": ["updateUnrotatedBlockInfo", "checkAndRotateColFiles"],
+            # order of the two segment-list snapshots of a query = Cfg.real.qOrder, and what each one reads
+            "C11.query.order": ["getAllUnrotatedSegments", "getAllRotatedSegmentsInQuery"],
+            "C11.aggs.order": ["getAllUnrotatedSegmentsInAggs", "getAllRotatedSegmentsInAggs"],
+            "C11.query.unrotated.reads": ["FilterUnrotatedSegmentsInQuery"],
+            "C11.query.rotated.reads": ["FilterSegmentsByTime"],
+            "C11.aggs.unrotated.reads": ["FilterUnrotatedSegmentsInQuery"],
+            "C11.aggs.rotated.reads": ["FilterSegmentsByTime"],
+            # which lock each protocol step holds (lock/unlock pairing inside the anchored functions)
+            "C11.lock.updateUnrotatedBlockInfo": ["UnrotatedInfoLock.Lock", "UnrotatedInfoLock.Unlock"],
+            "C11.lock.removeSegKeyFromUnrotatedInfo": ["UnrotatedInfoLock.Lock", "UnrotatedInfoLock.Unlock"],
+            "C11.lock.FilterUnrotatedSegmentsInQuery": ["UnrotatedInfoLock.RLock", "UnrotatedInfoLock.RUnlock"],
+            "C11.lock.bulkAddSegmentMicroIndex": ["Lock", "Unlock"],
+            "C11.lock.FilterSegmentsByTime": ["RLock", "RUnlock"],
+            "C11.lock.AddEntry": ["Lock", "Unlock", "AppendWipToSegfile", "AppendWipToSegfile"],
+            "C11.lock.FlushWipBufferToFile": ["allSegStoresLock.RLock", "Lock", "Unlock", "AppendWipToSegfile", "Unlock", "allSegStoresLock.RUnlock"],
+            "C11.lock.ForceRotateSegmentsForTest": ["allSegStoresLock.Lock", "Lock", "AppendWipToSegfile", "Unlock", "allSegStoresLock.Unlock"],
+            # the read of one request (ReadOne): check, then look-up under a second lock acquisition; error path closes twice
+            "C11.read.ssr.order": ["IsSegKeyUnrotated", "ExtractUnrotatedSSRFromSearchNode", "ExtractSSRFromSearchNode"],
+            "C11.read.ssr.lookup": ["RLock", "RUnlock", "IsRecentlyRotatedSegKey", "DoCMICheckForUnrotated"],
+            "C11.read.reader.order": ["IsSegKeyUnrotated", "GetBlockSearchInfoForKey", "GetSearchInfoAndSummary"],
+            "C11.read.reader.errclose": ["initNewMultiColumnReader", "Close"],
+            "C11.read.reader.callerclose": ["InitSharedMultiColumnReaders", "Close"],
+            "C11.read.stats.order": ["IsSegKeyUnrotated", "ReadSegStats", "computeSegStatsFromRawRecords", "computeSegStatsFromRawRecords"],
+        },
+        trusted_base=["the interleaving machines treat each protocol step as atomic: justified by the lock each step takes (facts C11.lock.*), not by the Go memory model",
+                      "harness/cmd/overlaygen/c11.go inserts pause points (before the rotation steps in segstore.go, after the two unrotated-checks of the read path in segquery.go and multicolreader.go) into textual copies of the working tree's files, nothing else changed; the two query snapshots are paused through the product hook hooks.GlobalHooks.FilterQsrsHook"],
+        decided_by_proof="PROTOCOL LOGIC over all interleavings of flush / the four rotation steps in the extracted order / the two query snapshots in the extracted order / the read, for any number of streams and queries: (1) no loss — at every step a segment is in the unrotated or the rotated map with all its flushed blocks, a query started after a completed flush has the flush's segment in one of its snapshots and (the read of a request taken as one step) reads the block; a schedule losing a block exists as soon as the rotation removes before it adds or the query snapshots rotated before unrotated; at lock granularity the read of one request is REFUTED by two counterexample theorems (rotation between the unrotated-check and the look-up: segment skipped = events silently lost; one layer down: double release of the FD semaphore = process crash; both replayed on the real engine, known findings), proved under the guard 'the remove step does not fall between a check and its look-up', and proved unconditionally for a reader that checks and looks up under one lock acquisition; (2) at most once — proved for record queries (block-level de-duplication), REFUTED for count queries by a counterexample theorem (segment in both snapshots, no de-duplication by segment key; replayed on the real engine, known finding), proved under the exact guard 'the two snapshots share no segment' and under the schedule guard 'no segment in its hand-over window at the first snapshot and no rotation step before the second'; (3) at quiescence the unrotated map, the rotated map and the flush history equal those of the sequential execution of the same schedule",
+        partial="data races in the Go memory model, deadlocks, crashes and real scheduling are NOT decided by proof; the stress worker (suite concstress: concurrent ingest + periodic flush + forced rotation + repeated match-all/count queries under GOMAXPROCS 1/4/16) and its -race build (thorough tier) are EXPLORATION only. The composition of the per-request read machine (ReadOne) with the many-request query machine is not proved (requests of one query are read in parallel); group-by queries, persistent-query (PQS) paths, sort-index sub-searches, retention/deletion of rotated segments and distributed query hooks are not modelled",
+        assumptions=["one SegStore per index (one stream id per index and node)", "rotated segments are not deleted while the modelled queries run (retention is property C14)",
+                     "`* | stats count` over a time range enclosing every segment takes the segment-statistics path that counts the record number captured by the snapshot (segquery.go applyAggOpOnSegments)"],
     ),
 }
 
